@@ -3,6 +3,7 @@
 // alphabet (x 2 system forces where forces are read) x EVERY stop step K x {text, binary} x {lagged, same-step}.
 #include "vproxy.h"
 #include "common.h"
+#include <algorithm>
 
 using namespace vc;
 
@@ -17,6 +18,7 @@ struct Conf {
   bool two_d;    // uses second variable d2
   double temperature;
   bool centres_only = false;  // values at bin centres inside the grid only (binned == analytic evaluation)
+  std::string resume_text;    // if set: the configuration the RESUMING instance is given (same objects, listed in another order); text states only
 };
 
 static const char *CV_D =
@@ -73,6 +75,26 @@ static std::vector<Conf> menu()
     m.push_back({"eabf-czar-fast-coordinate", fast + "abf {\n colvars d\n fullSamples 1\n}\n", true, false, 300});
   }
   m.push_back({"harmonic-ti", d + "harmonic {\n colvars d\n centers 1.5\n forceConstant 2.0\n writeTIPMF on\n}\n", true, false, 0});
+  {
+    // an extended-Lagrangian variable evaluated every second step (and its restraint with it): at odd stop steps it is asleep
+    std::string mts = CV_D_EXT;
+    size_t a = mts.find(" extendedLagrangian on");
+    mts.insert(a, " timeStepFactor 2\n");
+    m.push_back({"extended-Lagrangian-timeStepFactor2", mts + "harmonic {\n colvars d\n timeStepFactor 2\n centers 1.5\n forceConstant 2.0\n}\n", false, false, 300});
+  }
+  {
+    // the resuming instance lists the same objects in another order (a text state is matched by name)
+    std::string v1 = CV_D_EXT, v2 = CV_D2;
+    std::string h1 = "harmonic {\n name h1\n colvars d\n centers 1.0\n targetCenters 3.0\n targetNumSteps 5\n forceConstant 2.0\n outputAccumulatedWork on\n}\n";
+    std::string h2 = "harmonic {\n name h2\n colvars d2\n centers 1.2\n targetCenters 1.9\n targetNumSteps 4\n forceConstant 1.0\n outputAccumulatedWork on\n}\n";
+    std::string m1 = "metadynamics {\n name m1\n colvars d\n hillWeight 0.5\n hillWidth 1.0\n newHillFrequency 2\n}\n";
+    std::string m2 = "metadynamics {\n name m2\n colvars d2\n hillWeight 0.3\n hillWidth 1.0\n newHillFrequency 1\n}\n";
+    Conf c{"objects-listed-in-another-order-on-resume", v1 + v2 + h1 + h2 + m1 + m2, false, true, 300};
+    c.resume_text = v2 + v1 + h2 + h1 + m2 + m1;
+    m.push_back(c);
+  }
+  // two-dimensional ABF whose bias is the PMF integrated on the fly every second step
+  m.push_back({"abf-2d-pABFintegrateFreq2", d + CV_D2 + "abf {\n colvars d d2\n fullSamples 1\n pABFintegrateFreq 2\n}\n", true, true, 300});
   return m;
 }
 
@@ -98,13 +120,13 @@ struct Driver {
     px->fsys[2] = cvm::rvector(0.5, 0, 0);
     px->fsys[3] = cvm::rvector(-0.5 * f, 0, 0);
   }
-  bool fresh(int first_letter, long s, std::string &err)
+  bool fresh(int first_letter, long s, std::string &err, bool resuming = false)
   {
     delete px;
     px = new vproxy(4, same_step);
     px->set_target_temperature(c.temperature);
     place(first_letter, s);
-    if (px->config(c.text) != 0) { err = px->errtxt; return false; }
+    if (px->config((resuming && c.resume_text.size()) ? c.resume_text : c.text) != 0) { err = px->errtxt; return false; }
     return true;
   }
   bool step(int letter, long s, Obs &o, std::string &err)
@@ -141,6 +163,32 @@ static std::string state_diff(std::string const &a, std::string const &b, double
   }
 }
 
+
+// the top-level blocks of a state text ("colvar { ... }", "harmonic { ... }"), sorted: the same state whatever the order in
+// which the configuration listed its objects
+static std::string sorted_blocks(std::string const &t)
+{
+  std::vector<std::string> blocks;
+  size_t i = 0;
+  while (i < t.size()) {
+    size_t b = t.find('{', i);
+    if (b == std::string::npos) { blocks.push_back(t.substr(i)); break; }
+    int depth = 0;
+    size_t j = b;
+    for (; j < t.size(); j++) {
+      if (t[j] == '{') depth++;
+      else if (t[j] == '}') { depth--; if (depth == 0) break; }
+    }
+    blocks.push_back(t.substr(i, j + 1 - i));
+    i = j + 1;
+  }
+  auto squeeze = [](std::string const &x) { std::string o; for (char ch : x) if (!isspace((unsigned char) ch)) o += ch; return o; };
+  std::sort(blocks.begin(), blocks.end(), [&](std::string const &a, std::string const &b2) { return squeeze(a).substr(0, 60) < squeeze(b2).substr(0, 60); });
+  std::string o;
+  for (auto &bl : blocks) o += bl + "\n";
+  return o;
+}
+
 // ------------------------------------------------------------------------------------------------
 // Long scripted history x EVERY stop step: one trajectory of LH steps in which the coordinate wanders in and out of the
 // grid (and, for extended-Lagrangian variables, the fictitious coordinate does so out of phase), system forces vary, and
@@ -171,11 +219,11 @@ static std::vector<double> long_obs(vproxy &px)
 }
 static void long_history(Conf const &c, bool same_step, int LH, Result &r)
 {
-  auto fresh = [&](long s) {
+  auto fresh = [&](long s, bool resuming = false) {
     vproxy *px = new vproxy(4, same_step);
     px->set_target_temperature(c.temperature);
     long_place(*px, s);
-    if (px->config(c.text) != 0) { fprintf(stderr, "HARNESS-ERROR: %s rejected (long history): %s\n", c.name, px->errtxt.c_str()); exit(3); }
+    if (px->config((resuming && c.resume_text.size()) ? c.resume_text : c.text) != 0) { fprintf(stderr, "HARNESS-ERROR: %s rejected (long history): %s\n", c.name, px->errtxt.c_str()); exit(3); }
     return px;
   };
   // uninterrupted run
@@ -198,7 +246,8 @@ static void long_history(Conf const &c, bool same_step, int LH, Result &r)
       r.count("evaluations");
       double rel = bin ? 1e-12 : 1e-9;
       std::string det = base + ",\"stop_step\":" + std::to_string(K) + ",\"format\":\"" + (bin ? "binary" : "text") + "\"";
-      px = fresh(K);
+      if (bin && c.resume_text.size()) continue;   // (the binary format is positional by design: same order only)
+      px = fresh(K, true);
       if (bin) px->queue_state_binary(st_bin); else px->queue_state_text(st_text);
       bool bad = false;
       for (long s = K; s < LH && !bad; s++) {
@@ -219,7 +268,7 @@ static void long_history(Conf const &c, bool same_step, int LH, Result &r)
       }
       if (!bad) {
         px->end_run();
-        std::string df = state_diff(final0, px->state_text(), rel);
+        std::string df = c.resume_text.size() ? state_diff(sorted_blocks(final0), sorted_blocks(px->state_text()), rel) : state_diff(final0, px->state_text(), rel);
         if (df.size()) r.violation(std::string("C03:final-state-differs:") + c.name, det + ",\"difference\":\"" + jesc(df) + "\"}");
       }
       delete px;
@@ -311,6 +360,7 @@ int main(int argc, char **argv)
         for (int K = 0; K < L; K++) {
           for (int bin = 0; bin <= 1; bin++) {
            auto one_case = [&]() {
+            if (bin && c.resume_text.size()) return;   // (the binary format is positional by design: same order only)
             r.count("evaluations");
             double rel = bin ? 1e-12 : 1e-9;
             std::string det = base + ",\"stop_step\":" + std::to_string(K) + ",\"format\":\"" + (bin ? "binary" : "text") + "\"";
@@ -332,7 +382,7 @@ int main(int argc, char **argv)
               }
             }
             Driver d1(c, ss != 0);
-            if (!d1.fresh(word[K], K, err)) { fprintf(stderr, "HARNESS-ERROR: %s rejected on restart\n", c.name); exit(3); }
+            if (!d1.fresh(word[K], K, err, true)) { fprintf(stderr, "HARNESS-ERROR: %s rejected on restart\n", c.name); exit(3); }
             if (bin) d1.px->queue_state_binary(st_bin[K]); else d1.px->queue_state_text(st_text[K]);
             Obs o;
             for (int s = K; s < L; s++) {
@@ -357,7 +407,7 @@ int main(int argc, char **argv)
                 return;
               }
             }
-            std::string df = state_diff(final0, d1.px->state_text(), rel);
+            std::string df = c.resume_text.size() ? state_diff(sorted_blocks(final0), sorted_blocks(d1.px->state_text()), rel) : state_diff(final0, d1.px->state_text(), rel);
             if (df.size()) {
               r.violation(std::string("C03:final-state-differs:") + c.name, det + ",\"difference\":\"" + jesc(df) + "\"}");
             }
